@@ -4,11 +4,11 @@
 patch="$1"; shift
 cd /verif || exit 2
 if ! git -C /repo diff --quiet; then echo "/repo is dirty" >&2; exit 2; fi
-git -C /repo apply "$patch" 2>/dev/null || (cd /repo && patch -p1 -s -F 3 --no-backup-if-mismatch < "$patch" >/dev/null 2>&1) || { echo "cannot apply $patch" >&2; git -C /repo checkout -- .; exit 2; }
+git -C /repo apply "$patch" 2>/dev/null || git -C /repo apply --3way "$patch" >/dev/null 2>&1 || (cd /repo && git reset -q --hard && patch -p1 -s -F 3 --no-backup-if-mismatch < "$patch" >/dev/null 2>&1) || { echo "cannot apply $patch" >&2; git -C /repo reset -q --hard; exit 2; }
 for id in "$@"; do
   out=$(./run.sh "$id" quick 2>&1); code=$?
   detail=$(printf '%s\n' "$out" | grep -A1 '^VIOLATION' | head -2 | tr '\n' ' ' | cut -c1-400)
   [ $code -eq 2 ] && detail=$(printf '%s\n' "$out" | grep -i 'HARNESS-ERROR\|error' | head -3 | tr '\n' ' ' | cut -c1-400)
   echo "$(basename "$patch") $id exit=$code $detail"
 done
-git -C /repo checkout -- .
+git -C /repo reset -q --hard
